@@ -635,4 +635,126 @@ theorem pairStrat_eq_spec (inp : Input) (rdPkg wrPkg : Pkg) (a b : Ty)
         · simp [hc2, matStrat_eq]
       · simp [matStrat_eq]
 
+
+/-! ## identical types: the pair is symmetric (round trip) -/
+
+theorem named_excl (t : Ty) : (t.isNamedIn .src && t.isNamedIn .dest) = false := by
+  cases t <;> simp [Ty.isNamedIn]
+  rename_i p _ _
+  cases p <;> simp
+
+theorem named_excl' (t : Ty) : (t.isNamedIn .dest && t.isNamedIn .src) = false := by
+  rw [Bool.and_comm]; exact named_excl t
+
+/-- for identical types only a mapper method T→T can pre-empt the assignment, in either direction -/
+theorem misStrat_same (fns : List (Nat × Fn)) (t : Ty) :
+    misStrat fns .src .dest t t = (firstFn fns t t).map .func ∧
+    misStrat fns .dest .src t t = (firstFn fns t t).map .func := by
+  unfold misStrat
+  cases firstFn fns t t with
+  | some k => simp
+  | none =>
+    simp only [named_excl, named_excl', Bool.false_eq_true, ↓reduceIte, Option.map_none]
+    constructor <;> split <;> simp [named_excl, named_excl']
+
+theorem pairStrat_assign_symm (conv : List (Ty × Ty)) (fns : List (Nat × Fn)) (a b : Ty)
+    (h : pairStrat conv fns .src .dest a b = some .assign) :
+    a = b ∧ pairStrat conv fns .dest .src b a = some .assign := by
+  unfold pairStrat at h
+  cases hm : misStrat fns .src .dest a b with
+  | some s =>
+    -- the mismatch pass never yields `assign`
+    rw [hm] at h
+    simp only [Option.orElse_some, Option.some.injEq] at h
+    subst h
+    unfold misStrat at hm
+    split at hm
+    · simp at hm
+    · split at hm
+      · simp at hm
+      · split at hm
+        · split at hm <;> simp at hm
+        · simp at hm
+  | none =>
+    rw [hm] at h
+    simp only [Option.orElse_none] at h
+    unfold matStrat at h
+    by_cases he : (a == b) = true
+    · have hab : a = b := by simpa using he
+      subst hab
+      refine ⟨rfl, ?_⟩
+      have := misStrat_same fns a
+      rw [this.1] at hm
+      unfold pairStrat
+      rw [this.2, hm]
+      simp [matStrat]
+    · simp only [he, Bool.false_eq_true, ↓reduceIte] at h
+      split at h <;> simp at h
+
+/-- fields of a plain (non accessor-mode) side are neither getters nor setters -/
+theorem aor_flags (fs : List Field) (x : Field) (h : ∀ f ∈ fs, f.isGet = false ∧ f.isSet = false)
+    (hx : x.isGet = false ∧ x.isSet = false) : ∀ f ∈ appendOrReplace fs x, f.isGet = false ∧ f.isSet = false := by
+  induction fs with
+  | nil => intro f hf; simp [appendOrReplace] at hf; subst hf; exact hx
+  | cons g gs ih =>
+    intro f hf
+    simp only [appendOrReplace] at hf
+    split at hf
+    · split at hf
+      · rcases List.mem_cons.mp hf with rfl | hf'
+        · exact h g List.mem_cons_self
+        · exact h f (List.mem_cons_of_mem _ hf')
+      · exact h f hf
+    · rcases List.mem_cons.mp hf with rfl | hf'
+      · exact h f List.mem_cons_self
+      · exact ih (fun f hf => h f (List.mem_cons_of_mem _ hf)) f hf'
+
+theorem walkNested_flags (pre : List String) (d : Nat) (t : Tree) :
+    ∀ f ∈ walkNested pre d t, f.isGet = false ∧ f.isSet = false := by
+  induction t generalizing pre d with
+  | nil => simp [walkNested]
+  | field fd rest ih =>
+    intro f hf
+    simp only [walkNested, List.mem_cons] at hf
+    rcases hf with rfl | hf
+    · exact ⟨rfl, rfl⟩
+    · exact ih pre d f hf
+  | embed n p body rest ihb ihr =>
+    intro f hf
+    simp only [walkNested, List.mem_append] at hf
+    rcases hf with hf | hf
+    · exact ihb _ _ f hf
+    · exact ihr _ _ f hf
+
+theorem walkTop_flags (t : Tree) : ∀ f ∈ walkTop t, f.isGet = false ∧ f.isSet = false := by
+  induction t with
+  | nil => simp [walkTop]
+  | field fd rest ih =>
+    intro f hf
+    simp only [walkTop, List.mem_append] at hf
+    rcases hf with hf | hf
+    · split at hf
+      · cases hf
+      · simp only [List.mem_singleton] at hf; subst hf; exact ⟨rfl, rfl⟩
+    · exact ih f hf
+  | embed n p body rest _ ihr =>
+    intro f hf
+    simp only [walkTop, List.mem_append] at hf
+    rcases hf with hf | hf
+    · exact walkNested_flags _ _ _ f hf
+    · exact ihr f hf
+
+theorem foldl_aor_flags (xs fs : List Field) (hxs : ∀ f ∈ xs, f.isGet = false ∧ f.isSet = false)
+    (hfs : ∀ f ∈ fs, f.isGet = false ∧ f.isSet = false) :
+    ∀ f ∈ xs.foldl appendOrReplace fs, f.isGet = false ∧ f.isSet = false := by
+  induction xs generalizing fs with
+  | nil => exact hfs
+  | cons x xs ih =>
+    exact ih (fun f hf => hxs f (List.mem_cons_of_mem _ hf)) _ (aor_flags fs x hfs (hxs x List.mem_cons_self))
+
+theorem sideFields_plain_flags (t : Tree) : ∀ f ∈ sideFields t false, f.isGet = false ∧ f.isSet = false := by
+  intro f hf
+  simp only [sideFields, Bool.false_eq_true, ↓reduceIte, List.mem_filter] at hf
+  exact foldl_aor_flags _ [] (walkTop_flags t) (by simp) f hf.1
+
 end ShootVerif.Mapper
